@@ -84,6 +84,9 @@ fn build(prog: &[C], vars: &[T], q: &T, variant: u8) -> Goal<U, E> {
         1 => LTerm::from_vec(vec![Into::<T>::into((vars[0].clone(), vars[1].clone())), vars[2].clone()]),
         2 => LTerm::from_vec(vec![Into::<T>::into(Some(Some(Some((vars[0].clone(), vars[1].clone()))))), vars[2].clone()]),
         3 => LTerm::from_vec(vec![vars[0].clone()]),
+        // a list inside a compound, and a compound inside a compound
+        4 => Into::<T>::into((LTerm::from_vec(vec![vars[0].clone(), vars[1].clone()]), vars[2].clone())),
+        5 => Into::<T>::into((Into::<T>::into((vars[0].clone(), vars[1].clone())), vars[2].clone())),
         _ => LTerm::from_vec(vars.to_vec()),
     };
     let mut goals: Vec<Goal<U, E>> = vec![Eq::new::<Goal<U, E>>(q.clone(), qterm).cast_into()];
@@ -141,8 +144,8 @@ fn check(rep: &mut Report, prog: &[C]) {
     let neg = doms.iter().any(|d| d.iter().any(|x| *x < 0)) || prog.iter().any(|c| format!("{:?}", c).contains("K(-"));
     let class = if prog.iter().any(|c| matches!(c, C::Times(..))) && neg { "times-negative" } else if prog.iter().any(|c| matches!(c, C::Times(..))) { "times" } else if prog.iter().any(|c| c.class() == "alias") { "alias" } else { "plain" };
     let exp = solutions(prog, &doms);
-    for variant in 0u8..4 {
-    let vname = ["", " [compound-query]", " [nested-compound-query]", " [hidden-variables]"][variant as usize];
+    for variant in 0u8..6 {
+    let vname = ["", " [compound-query]", " [nested-compound-query]", " [hidden-variables]", " [list-in-compound-query]", " [compound-in-compound-query]"][variant as usize];
     let inp = format!("{}{}", inp, vname);
     let class = if variant == 0 { class } else { &vname[2..vname.len() - 1] };
     // with hidden variables only x0 is observed: every value of x0 that extends to a solution, once
@@ -210,7 +213,13 @@ fn gen(r: &mut Rng, signed: bool) -> Vec<C> {
         let c = match r.below(10) {
             0 | 1 => C::Plus(op(r), op(r), op(r)), 2 => C::Minus(op(r), op(r), op(r)), 3 | 4 => C::Times(op(r), op(r), op(r)),
             5 => C::Lte(A::V(r.below(NV)), op(r)), 6 => C::Lt(A::V(r.below(NV)), op(r)), 7 => C::Ne(A::V(r.below(NV)), op(r)),
-            8 => C::Distinct((0..NV).map(A::V).collect()), _ => C::Eq(A::V(r.below(NV)), op(r)),
+            8 => {
+                // all-different over the variables, now and then with integer literals mixed in (in any order)
+                let mut items: Vec<A> = (0..NV).map(A::V).collect();
+                if r.below(2) == 0 { for _ in 0..1 + r.below(2) { let k = A::K(lo + r.below((hi - lo + 1) as usize) as isize); let pos = r.below(items.len() + 1); items.insert(pos, k); } }
+                C::Distinct(items)
+            }
+            _ => C::Eq(A::V(r.below(NV)), op(r)),
         };
         prog.push(c);
     }
@@ -230,6 +239,10 @@ pub fn search(tier: &str, seed: u64, only: Option<&str>) {
             let mut p = dom3(lo, hi); p.push(c.clone()); fixed.push(p.clone());
             let mut p2 = vec![c.clone()]; p2.extend(dom3(lo, hi)); fixed.push(p2);
         }
+    }
+    for items in [vec![A::V(0), A::K(2), A::V(1), A::K(0)], vec![A::K(1), A::V(0), A::K(-1), A::V(1), A::V(2)], vec![A::V(0), A::K(1), A::K(1)], vec![A::K(3), A::V(2), A::K(0), A::V(0)]] {
+        let mut p = dom3(-1, 3); p.push(C::Distinct(items.clone())); fixed.push(p);
+        let mut p = vec![C::Distinct(items.clone())]; p.extend(dom3(-1, 3)); fixed.push(p);
     }
     // a constraint posted on a variable that `==` has aliased to another one (the operand as posted is not the
     // representative that carries the domain), observed both fully and with the aliased pair hidden
@@ -280,7 +293,7 @@ fn parse_prog(body: &str) -> Vec<C> {
 pub fn replay(input: &str) {
     // input: "<check> <program text>" in the format printed by show()
     let body = input.splitn(2, ' ').nth(1).unwrap_or(input);
-    let body = body.trim_end_matches(" [compound-query]").trim_end_matches(" [nested-compound-query]").trim_end_matches(" [hidden-variables]");
+    let body = body.trim_end_matches(" [compound-query]").trim_end_matches(" [nested-compound-query]").trim_end_matches(" [hidden-variables]").trim_end_matches(" [list-in-compound-query]").trim_end_matches(" [compound-in-compound-query]");
     let prog = parse_prog(body);
     let mut rep = Report::new("clpfd", "replay");
     if input.starts_with("determinism ") {
